@@ -554,6 +554,42 @@ def req_C04(r, tier):
             out.append(("ed.msm_pre:digits_%s" % name, "ed.msm_pre %s %s %s %s" % (lst(ss[:k]), lst(ps[:k]), lst(ss[k:]), lst(ps[k:]))))
             if n <= 9 or n >= 190:
                 out.append(("ris.msm_vt:digits_%s" % name, "ris.msm_vt %s %s" % (lst(ss), lst([RIS_B] * n))))
+    # exceptional POINTS inside multiscalar inputs of every size regime: the identity, small-order points and points with a torsion
+    # component, at the first / last / a random position and everywhere ("the identity contributes nothing" shortcuts)
+    IDp, T2p, T8p, BTp = compress(ZERO).hex(), compress(T8[4]).hex(), compress(T8[1]).hex(), compress(add(B, T8[3])).hex()
+    for n in sizes:
+        if n == 0:
+            continue
+        ss = [H(r.below(L)) for _ in range(n)]
+        base = [rand_pt() for _ in range(n)]
+        variants = []
+        for name, ex in (("id", IDp), ("t2", T2p), ("t8", T8p), ("Bt", BTp)):
+            for where in ("first", "last", "rand"):
+                ps = list(base)
+                ps[{"first": 0, "last": n - 1, "rand": r.below(n)}[where]] = ex
+                variants.append(("%s_%s" % (name, where), ps))
+            variants.append(("%s_all" % name, [ex] * n))
+        if n > 100:
+            variants = [v for v in variants if v[0] in ("id_first", "id_rand", "id_all", "t8_last", "Bt_rand")]
+        for name, ps in variants:
+            out.append(("ed.msm_vt:pt_%s:n=%d" % (name, n), "ed.msm_vt %s %s" % (lst(ss), lst(ps))))
+            out.append(("ed.msm_opt:pt_%s:n=%d" % (name, n), "ed.msm_opt %s %s" % (lst(ss), lst(ps))))
+            if n <= 200:
+                out.append(("ed.msm_ct:pt_%s" % name, "ed.msm_ct %s %s" % (lst(ss), lst(ps))))
+            for c in ("serial", "avx2", "ifma"):
+                out.append(("ed.direct.%s.pippenger:pt_%s" % (c, name), "ed.direct.%s.pippenger %s %s" % (c, lst(ss), lst(ps))))
+                if n <= 200:
+                    out.append(("ed.direct.%s.straus_vt:pt_%s" % (c, name), "ed.direct.%s.straus_vt %s %s" % (c, lst(ss), lst(ps))))
+                    out.append(("ed.direct.%s.straus_ct:pt_%s" % (c, name), "ed.direct.%s.straus_ct %s %s" % (c, lst(ss), lst(ps))))
+            k = n // 2
+            out.append(("ed.msm_pre:pt_%s" % name, "ed.msm_pre %s %s %s %s" % (lst(ss[:k]), lst(ps[:k]), lst(ss[k:]), lst(ps[k:]))))
+        if n <= 9 or n >= 190:
+            rid = ris_encode(ZERO).hex()
+            rps = [RIS_B] * n
+            rps[r.below(n)] = rid
+            out.append(("ris.msm_vt:pt_id", "ris.msm_vt %s %s" % (lst(ss), lst(rps))))
+            if n <= 200:
+                out.append(("ris.msm_ct:pt_id", "ris.msm_ct %s %s" % (lst(ss), lst(rps))))
     out += exceptional_scalar_mul(r)
     # ladder on arbitrary bit strings
     for i in range(sz(tier, 30, 400)):
@@ -717,6 +753,20 @@ def req_C06(r, tier):
         out.append(("ris.msm_ct:n=%d" % n, "ris.msm_ct %s %s" % (lst(ss), lst(ps))))
         out.append(("ris.msm_vt:n=%d" % n, "ris.msm_vt %s %s" % (lst(ss), lst(ps))))
         out.append(("ris.msm_opt:n=%d" % n, "ris.msm_opt %s %s" % (lst(ss), lst(ps))))
+    # every coset REPRESENTATIVE (P + T, T in E[4]) of ordinary elements and of the identity, at every position of the batch: the
+    # identity held as (0,1), (0,-1), (i,0), (-i,0) - "batched double-and-compress equals compressing 2P" for all representatives
+    rid_, rbs_ = ris_encode(ZERO).hex(), [ris_encode(smul(k, B)).hex() for k in (1, 2, 7)]
+    for n in (1, 2, 3, 5):
+        for pos in range(n):
+            for j in range(4):
+                items = ["%s:%d" % (rbs_[i % 3], r.below(4)) for i in range(n)]
+                items[pos] = "%s:%d" % (rid_, j)
+                out.append(("ris.double_compress_batch_rep:id_rep%d_at_%d_of_%d" % (j, pos, n), "ris.double_compress_batch_rep " + lst(items)))
+    for j in range(4):
+        out.append(("ris.double_compress_batch_rep:all_id_rep%d" % j, "ris.double_compress_batch_rep " + lst(["%s:%d" % (rid_, j)] * 3)))
+    for i in range(sz(tier, 6, 60)):
+        n = 1 + r.below(6)
+        out.append(("ris.double_compress_batch_rep:rand", "ris.double_compress_batch_rep " + lst("%s:%d" % (r.choice(pool)[1].hex(), r.below(4)) for _ in range(n))))
     # identity in batch (documented: batch double-and-compress of identity)
     out.append(("ris.double_compress_batch:id", "ris.double_compress_batch " + lst([ris_encode(ZERO).hex(), ris_encode(B).hex(), ris_encode(ZERO).hex()])))
     for i in range(sz(tier, 20, 300)):
@@ -830,8 +880,12 @@ def req_C08(r, tier):
         out.append(("eds.from_keypair:flipped", "eds.from_keypair " + (sd + bytes(bad)).hex()))
         out.append(("eds.from_keypair:other", "eds.from_keypair " + (sd + ed_pub(r.bytes(32))).hex()))
         out.append(("eds.from_keypair:undecodable", "eds.from_keypair " + (sd + bad_point_encodings(r, 1)[0][1]).hex()))
-        for lt, tb in torsion_encodings()[:4]:
+        # EVERY small-order encoding (canonical or not; T6 = 32 zero bytes, the "empty" public half some exporters write) and the
+        # constant fillers
+        for lt, tb in torsion_encodings():
             out.append(("eds.from_keypair:torsion_" + lt, "eds.from_keypair " + (sd + tb).hex()))
+        for lt, tb in (("ff", bytes([255]) * 32), ("seed_again", sd)):
+            out.append(("eds.from_keypair:filler_" + lt, "eds.from_keypair " + (sd + tb).hex()))
         nc = bytearray(pk); nc[31] ^= 0x80
         out.append(("eds.from_keypair:signflip", "eds.from_keypair " + (sd + bytes(nc)).hex()))
         for m in msgs(r, sz(tier, 2, 8)):
@@ -1296,6 +1350,11 @@ def req_C15(r, tier):
         out.append(("ris.double_compress_batch:all_id:n=%d" % n, "ris.double_compress_batch " + lst([rid] * n)))
         out.append(("fe.batch_invert:all_zero:n=%d" % n, "fe.batch_invert " + lst([H(0)] * n)))
     out.append(("ris.double_compress_batch:empty", "ris.double_compress_batch -"))
+    for j in range(4):
+        for pos in range(2):
+            items = ["%s:0" % rb[0], "%s:1" % rb[1]]
+            items[pos] = "%s:%d" % (rid, j)
+            out.append(("ris.double_compress_batch_rep:id_rep%d_at_%d" % (j, pos), "ris.double_compress_batch_rep " + lst(items)))
     out.append(("fe.batch_invert:empty", "fe.batch_invert -"))
     # scalar multiplications on algebraically exceptional scalar tuples (all-zero recodings etc.)
     out += exceptional_scalar_mul(r)
@@ -1381,6 +1440,14 @@ def req_C11(r, tier):
     out += req_C07(r, small)
     out += per_class(req_C08(r, small), sz(tier, 400, 5000))
     out += per_class(req_C09(r, small), sz(tier, 300, 5000))
+    # bulk random scalar arithmetic: overflow conditions that are RELATIONAL in the limbs (e.g. the Karatsuba recombination of the
+    # 29-bit backend, whose wrapped intermediate differences cancel) have probabilities around 1e-3 .. 1e-6 per operation and no
+    # boundary class of their own; cheap operations, so the checked builds simply run many of them
+    for i in range(sz(tier, 4000, 60000)):
+        out.append(("sc.reduce_wide:bulk", "sc.reduce_wide " + r.bytes(64).hex()))
+    for i in range(sz(tier, 1500, 30000)):
+        out.append(("sc.reduce:bulk", "sc.reduce " + r.bytes(32).hex()))
+        out.append(("sc.mul:bulk", "sc.mul %s %s" % (H(r.below(L)), H(r.below(L)))))
     return out
 
 
